@@ -1405,6 +1405,76 @@ fn crash_oracle(cx: &mut Ctx, r: &mut Rng, run: &Run, budget: usize, depth: usiz
     }
 }
 
+/// Exhaustive single-page loss on commit windows: for sync windows that carry a header write and at most
+/// `MAX_PAGES` page writes, EVERY image "all of the window persisted except one page write" is opened (the
+/// header is on disk, so recovery's Merkle walk alone decides; losing any single page of the new commit must
+/// make it fall back). Windows are visited in a seed-dependent order until `budget` images are spent; a
+/// window is either covered completely or not at all.
+fn single_page_loss_pass(cx: &mut Ctx, r: &mut Rng, run: &Run, budget: usize) {
+    const MAX_PAGES: usize = 40;
+    if run.ops.len() <= run.ready_pos {
+        return;
+    }
+    let mut windows: Vec<usize> = (run.ready_pos..run.ops.len()).filter(|i| matches!(run.ops[*i], Op::Sync)).collect();
+    for i in (1..windows.len()).rev() {
+        let j = r.below(i as u64 + 1) as usize;
+        windows.swap(i, j);
+    }
+    let mut left = budget;
+    for k in windows {
+        let (durable, s) = durable_at(run, k);
+        let pending: Vec<Op> = run.ops[s..k].iter().filter(|o| !matches!(o, Op::Close)).cloned().collect();
+        let page_idx: Vec<usize> =
+            (0..pending.len()).filter(|i| matches!(pending[*i], Op::Write { .. }) && !is_hdr(&pending[*i])).collect();
+        if !pending.iter().any(is_hdr) || page_idx.is_empty() || page_idx.len() > MAX_PAGES || page_idx.len() > left {
+            continue;
+        }
+        left -= page_idx.len();
+        let lo = run.marks.lo(k);
+        let hi = run.marks.hi(k).max(lo);
+        for &i in &page_idx {
+            let mut fates = vec![Fate::Full; pending.len()];
+            fates[i] = Fate::Drop;
+            let c = Choice { kind: "one-page-lost", k, fates };
+            let image = apply_fates(&durable, &pending, &c.fates);
+            cx.out.stats.images += 1;
+            *cx.out.stats.images_by_kind.entry(c.kind.to_string()).or_default() += 1;
+            let desc = format!("main depth=0 cfg=[{}] {}", run.cfg.describe(), describe_choice(&pending, &c));
+            match open_and_dump(&run.cfg, &image, false, false) {
+                Err(e) => violation(cx, "c01-open-failed", format!("opening the crash image failed: {e}"), desc),
+                Ok((o, _)) => {
+                    emit_open_protocol(cx.out, &format!("h{}:1p:open@{}#{}", cx.hist, k, i), &image, &o);
+                    if let Err(e) = &o.integrity {
+                        violation(cx, "c01-integrity-error", format!("check_integrity after recovery failed: {e}"), desc.clone());
+                    }
+                    match classify(run, &o.digest, lo, hi) {
+                        Ok(cp) => {
+                            if cp == lo && hi > lo {
+                                cx.out.stats.outcome_old += 1;
+                            } else if cp == hi {
+                                cx.out.stats.outcome_new += 1;
+                            } else {
+                                cx.out.stats.outcome_mid += 1;
+                            }
+                            cx.out.stats.nontrivial.insert(format!("{}|1p|{}|{}", cx.hist, k, i));
+                        }
+                        Err(why) => {
+                            let key = if why.starts_with("older") {
+                                "c01-older-than-acked"
+                            } else if why.starts_with("newer") {
+                                "c01-newer-than-requested"
+                            } else {
+                                "c01-no-commit-point"
+                            };
+                            violation(cx, key, format!("recovered contents violate the property: {why}"), desc);
+                        }
+                    }
+                }
+            }
+        }
+    }
+}
+
 /// the contents captured by persistent savepoints, as far as the harness knows them for commit point cp
 fn saved_for(run: &Run, cp: usize) -> BTreeMap<u64, Content> {
     // savepoint ids are unique within one run, so the captured contents of the ids alive at cp are known
@@ -1931,6 +2001,8 @@ fn process_history(seed: u64, h: usize, mut r: Rng, budget: usize, thorough: boo
         cx.out.stats.run_errors.push(e.clone());
     }
     crash_oracle(&mut cx, &mut r, &run, budget, 0, "main");
+    let mut r1 = r.fork(0x1b);
+    single_page_loss_pass(&mut cx, &mut r1, &run, budget);
     emit_protocol(&mut out, &format!("h{h}"), &run);
     // S2 material: the whole stream after creation, cut into windows
     if let Err(e) = emit_windows(&mut out, &cfg, &format!("h{h}"), &run.start_image, &run.ops, run.ready_pos) {
